@@ -721,7 +721,7 @@ def plan(ctx):
     trees, rnd = [], []
     lengths = [1, 2, 3, 4, 5, 6]
     if ctx.quick():
-        deep = {(1, "jd"), (3, "jd"), (2, "gps_ws"), (4, "jd")}
+        deep = {(1, "jd"), (3, "jd"), (2, "gps_ws")}
         for fmt in ("jd", "gps_ws"):
             for n in lengths:
                 cfg = Cfg(n, fmt)
@@ -734,11 +734,11 @@ def plan(ctx):
         for fmt in ("jd", "gps_ws"):
             for n in lengths:
                 cfg = Cfg(n, fmt)
-                d = 4 if (n, fmt) in {(1, "jd"), (2, "jd"), (4, "jd"), (3, "gps_ws")} else 3
+                d = 4 if (n, fmt) in {(1, "jd"), (2, "jd"), (3, "gps_ws")} else 3
                 for op in first_ops(cfg):
                     rich_first = op in first_ops_rich_only(cfg)
                     trees.append((n, fmt, op, 3 if rich_first else d, 1))
-        n_rnd, ln = 6000, 30
+        n_rnd, ln = 4000, 30
     for i in range(n_rnd):
         rnd.append((ctx.rng.choice(lengths), ctx.rng.choice(["jd", "mjd", "gps_ws", "jd", "gps_ws"]),
                     ctx.rng.randrange(1 << 60), ctx.rng.choice([ln, ln, 12, 6])))
